@@ -72,8 +72,11 @@ NSHARDS = {'quick': 16, 'thorough': 32}
 SOURCES = ['kw', 'vars', 'client_last', 'client_first', 'mapping', 'ctor_kw', 'ctor_map']
 KINDS3 = ['plain', 'call', 'tmpl']
 FALSY = ['zero', 'empty', 'none', 'fcall', 'fret']
-NEST_KINDS = ['in', 'inmap', 'with', 'only', 'withmap', 'let', 'letx', 'if', 'ifelse', 'elif',
+NEST_KINDS = ['in', 'inmap', 'inpfx', 'with', 'only', 'withmap', 'let', 'letx', 'if', 'ifelse', 'elif',
               'unless', 'try']
+LOOPS = ('in', 'inmap', 'inpfx')
+STYLES = U.STYLES                 # spellings of the names; 0 = the generator's own lower-case names
+SYNTAXES = U.SYNTAXES
 IFLIKE = ('if', 'ifelse', 'elif', 'unless')
 DESIGN_KINDS = ['in', 'with', 'only', 'withmap', 'let', 'if', 'try']
 BASE_SOURCES = ['kw', 'vars', 'client', 'mapping', 'ctor_kw', 'ctor_map']
@@ -129,6 +132,11 @@ def ast_a(cls):
     return ast
 
 
+# binding constructs of the part-A template (spelling evidence)
+AST_A_CONSTRUCTS = {'H': ['let (two bindings, the second reading the first)', 'if / elif / unless cache'],
+                    'HTML': ['let (two bindings, the second reading the first)', 'if / elif / unless cache'],
+                    'String': []}
+
 _CLASSES = {}
 
 
@@ -149,17 +157,18 @@ class Session:
 
     CALL_SOURCES = ('kw', 'client_last', 'client_first', 'mapping')
 
-    def __init__(self, cls, ast, ctor_scopes, variant):
+    def __init__(self, cls, ast, ctor_scopes, variant, sp=0, syntax='html'):
         C = classes()
         self.cls = cls
         self.ast = ast
         self.variant = variant
         self.rec = Recorder()
-        self.rz = U.Realizer(self.rec, C['HTML'])
+        self.sp = U.Spelling(sp)
+        self.rz = U.Realizer(self.rec, C['HTML'], self.sp, syntax)
         self.model = U.Model()
         self.ctor_scopes = ctor_scopes                # {'ctor_kw': scope, 'ctor_map': scope}
         self.vars_scope = {}
-        self.src = U.to_dtml(ast, 'epfs' if cls == 'String' else 'html')
+        self.src = U.to_dtml(ast, 'epfs' if cls == 'String' else syntax, self.sp)
         real = dict((s, self.rz.real_scope(sc)) for s, sc in ctor_scopes.items())
         cmap = real.get('ctor_map')
         self.exp_globals = dict(real.get('ctor_kw', {}))
@@ -275,15 +284,15 @@ def source_scope(s, kind, tag=''):
     return {'n': value_spec(st, kind), 'q': U.Plain('Q:' + st), 'd': U.Plain('D:' + st)}
 
 
-def run_a(ctx, mask, kinds, pad, variant, cls, tag='grid'):
+def run_a(ctx, mask, kinds, pad, variant, cls, tag='grid', sp=0, syntax='html'):
     """One precedence configuration.  kinds: one kind per defining source (priority order).
     The template object is then called again with the top call-level source dropped and
     once more with the full configuration (precedence must not depend on earlier calls)."""
     members = [s for i, s in enumerate(SOURCES) if mask >> i & 1]
     case = {'part': 'A', 'mask': mask, 'kinds': list(kinds), 'pad': pad, 'variant': variant,
-            'cls': cls}
+            'cls': cls, 'sp': sp, 'syntax': syntax}
     winner_kind = kinds[0]
-    ctx.case(('A', mask, tuple(kinds), pad, variant, cls),
+    ctx.case(('A', mask, tuple(kinds), pad, variant, cls) + ((sp, syntax) if sp or syntax != 'html' else ()),
              len(members) > 1 or winner_kind != 'plain')
     scopes = {}
     for s, k in zip(members, kinds):
@@ -293,7 +302,7 @@ def run_a(ctx, mask, kinds, pad, variant, cls, tag='grid'):
             if s not in scopes:
                 scopes[s] = {'zz': U.Plain('zz:' + s)}
     sess = Session(cls, ast_a(cls), dict((s, scopes[s]) for s in ('ctor_kw', 'ctor_map') if s in scopes),
-                   variant)
+                   variant, sp, syntax)
     if 'vars' in scopes:
         sess.set_vars(scopes['vars'])
     full = dict((s, scopes[s]) for s in Session.CALL_SOURCES if s in scopes)
@@ -334,6 +343,8 @@ def run_a(ctx, mask, kinds, pad, variant, cls, tag='grid'):
     model = sess.model
     for f, n in model.probes.items():
         ctx.count('A:probes ' + f, n)
+    if not problems:
+        names_evidence(ctx, 'A', sp, syntax, model, ['src:' + m for m in members] + AST_A_CONSTRUCTS[cls])
     ctx.count('A:sub-template invocations', model.subcalls)
     ctx.count('A:lookups shadowing a lower source', model.shadowed)
 
@@ -346,8 +357,9 @@ def run_h(ctx, hist):
     ctx.case(('H', repr(hist)), True)
     ctor = dict((s, source_scope(s, k)) for s, k in hist['ctor'].items())
     ast = ast_a('H') + [U.Text('W'), U.Probe('miss', 'w')]
+    sp, syntax = hist.get('sp', 0), hist.get('syntax', 'html')
     sess = Session(hist['cls'], ast if hist['cls'] == 'H' else ast_a(hist['cls']) +
-                   [U.Text('W'), U.Probe('miss', 'w')], ctor, hist['variant'])
+                   [U.Text('W'), U.Probe('miss', 'w')], ctor, hist['variant'], sp, syntax)
     ctx.count('H:histories')
     for i, step in enumerate(hist['steps']):
         tag = '@%d' % i
@@ -376,6 +388,13 @@ def run_h(ctx, hist):
             return
     for f, n in sess.model.probes.items():
         ctx.count('H:probes ' + f, n)
+    srcs = set(hist['ctor'])
+    for step in hist['steps']:
+        srcs.update(step['call'])
+        if step.get('vars') and step['vars'] != 'bystander':
+            srcs.add('vars')
+    names_evidence(ctx, 'H', sp, syntax, sess.model,
+                   ['src:' + m for m in sorted(srcs)] + AST_A_CONSTRUCTS[hist['cls']])
 
 
 def configs_h(tier):
@@ -496,6 +515,20 @@ def configs_a(tier):
     return out
 
 
+# ================================================================== spelling evidence
+def names_evidence(ctx, part, sp, syntax, model, constructs):
+    """Which binding constructs / sources had their probes compared under which spelling of
+    the names and which tag syntax (the comparisons themselves are those of the part)."""
+    style = STYLES[sp]
+    n = sum(model.probes.values())
+    ctx.table('N probes compared under spelling', style, n)
+    ctx.table('N probes compared under tag syntax', syntax, n)
+    ctx.table('N part x spelling', '%s/%s' % (part, style))
+    for c in constructs:
+        ctx.table('N construct x spelling', '%s/%s' % (c, style))
+        ctx.table('N construct x tag syntax', '%s/%s' % (c, syntax))
+
+
 # ================================================================== part B
 def nest_value(level, label, vk, depth):
     name = 'n@L%d%s' % (level, label)
@@ -548,6 +581,8 @@ def build_nest(kinds, vk, exc=None, rec=None):
     sub_ast = [T('{sub|'), P('name', 'n', True)]
     for lv in range(1, D + 1):
         sub_ast.append(P('miss', 'b%d' % lv, True))
+        if kinds[lv - 1] == 'inpfx':
+            sub_ast.append(P('miss', 'p%d~item' % lv, True))
     sub_ast += [P('miss', 'sequence-item', True), P('miss', 'error_value', True),
                 P('name', 'own', True), P('name', 'subn', True), T('}')]
     base['sub'] = U.Tmpl('sub', sub_ast, {'own': U.Plain('sub-own')})
@@ -567,6 +602,9 @@ def build_nest(kinds, vk, exc=None, rec=None):
         ps = [T(tag), P('name', 'n'), P('entity', 'n'), P('expr', 'n')]
         for lv in range(1, D + 1):
             ps.append(P('miss', 'b%d' % lv))
+            if kinds[lv - 1] == 'inpfx':
+                # the aliases <dtml-in prefix=p> defines next to sequence-item / sequence-index
+                ps += [P('miss', 'p%d~item' % lv), P('miss', 'p%d~index' % lv)]
         ps += [P('miss', 'sequence-item'), P('miss', 'sequence-index'),
                P('miss', 'error_type'), P('miss', 'error_value')]
         if 'only' not in kinds:
@@ -599,7 +637,7 @@ def build_nest(kinds, vk, exc=None, rec=None):
         for lv in range(1, D + 1):
             k = kinds[lv - 1]
             b = 'b%d' % lv
-            if k in ('in', 'inmap'):
+            if k in LOOPS:
                 items = []
                 for i in range(2):
                     attrs = {'n': nest_value(lv, '%s.%d%s' % (k, i, g), vk, D),
@@ -710,8 +748,8 @@ def build_nest(kinds, vk, exc=None, rec=None):
             body += [U.If('doom', [P('call', 'boomX'), T('unreached')], [T(';')])]
         b = 'b%d' % lv
         c = 'c%d' % lv
-        if k in ('in', 'inmap'):
-            blk = [U.In('seq%d' % lv, k == 'inmap', body)]
+        if k in LOOPS:
+            blk = [U.In('seq%d' % lv, k == 'inmap', body, 'p%d' % lv if k == 'inpfx' else None)]
         elif k == 'with':
             blk = [U.With('obj%d' % lv, 'inst', body)]
         elif k == 'only':
@@ -755,9 +793,10 @@ def build_nest(kinds, vk, exc=None, rec=None):
     return ast, base
 
 
-def run_b(ctx, kinds, vk, bs, exc=None):
-    case = {'part': 'B', 'kinds': list(kinds), 'vk': vk, 'bs': bs, 'exc': list(exc) if exc else None}
-    ctx.case(('B', tuple(kinds), vk, bs, exc), True)
+def run_b(ctx, kinds, vk, bs, exc=None, sp=0, syntax='html'):
+    case = {'part': 'B', 'kinds': list(kinds), 'vk': vk, 'bs': bs, 'exc': list(exc) if exc else None,
+            'sp': sp, 'syntax': syntax}
+    ctx.case(('B', tuple(kinds), vk, bs, exc) + ((sp, syntax) if sp or syntax != 'html' else ()), True)
     C = classes()
     ast, base = build_nest(kinds, vk, exc)
     loser = {'n': U.Plain('n@loser')} if bs != 'ctor_map' else None
@@ -765,8 +804,9 @@ def run_b(ctx, kinds, vk, bs, exc=None):
     stack = [loser, base] if loser else [base]
     exp = model.render(ast, stack)
     rec = Recorder()
-    rz = U.Realizer(rec, C['HTML'])
-    src = U.to_dtml(ast)
+    spell = U.Spelling(sp)
+    rz = U.Realizer(rec, C['HTML'], spell, syntax)
+    src = U.to_dtml(ast, syntax, spell)
     xk = '%s@%d' % (exc[1], exc[0]) if exc else 'none'
     try:
         rb = rz.real_scope(base)
@@ -813,6 +853,8 @@ def run_b(ctx, kinds, vk, bs, exc=None):
     ctx.count('B:probes not asserted (absent name under with-only)', model.wild)
     ctx.count('B:calls expected', len(model.trace))
     problems = compare(exp, model.trace, out, rec)
+    if not problems:
+        names_evidence(ctx, 'B', sp, syntax, model, list(kinds) + ['src:' + bs, 'sub-template defaults'])
     if problems:
         ctx.violation('; '.join(problems), case,
                       key='B_%s_%s_%s_%s' % ('-'.join(kinds), vk, bs, xk),
@@ -841,7 +883,7 @@ def rec_cost(kinds, driver, shape):
     m = 1
     groups = 2
     for k in kinds:
-        if k in ('in', 'inmap'):
+        if k in LOOPS:
             m *= 2
         groups += 2 * m
 
@@ -882,14 +924,16 @@ def run_r(ctx, kinds, vk, bs, rec):
     model = U.Model()
     stack = [loser, base] if loser else [base]
     rcd = Recorder()
-    rz = U.Realizer(rcd, C['HTML'])
-    src = U.to_dtml(ast)
-    self_src = U.to_dtml(base['walk'].ast)
+    sp, syntax = rec.get('sp', 0), rec.get('syntax', 'html')
+    spell = U.Spelling(sp)
+    rz = U.Realizer(rcd, C['HTML'], spell, syntax)
+    src = U.to_dtml(ast, syntax, spell)
+    self_src = U.to_dtml(base['walk'].ast, syntax, spell)
     key = 'R_%s_%s_%s_%s_%s' % ('-'.join(kinds), vk, bs, rec['driver'], rec['route'])
     rb = rz.real_scope(base)
     rl = rz.real_scope(loser) if loser else None
     if top_self:
-        t = rb['walk']
+        t = rb[spell('walk')]
     elif bs == 'ctor_kw':
         t = C['HTML'](src, rl, **rb)
     elif bs == 'ctor_map':
@@ -948,13 +992,14 @@ def run_r(ctx, kinds, vk, bs, rec):
         if problems:
             ctx.violation('render %d of a template invoking itself: %s' % (r + 1, '; '.join(problems)),
                           case, key=key,
-                          detail={'source': self_src, 'hop': U.to_dtml(base['hop'].ast),
+                          detail={'source': self_src, 'hop': U.to_dtml(base['hop'].ast, syntax, spell),
                                   'expected': short(U.segments_text(exp), 4000),
                                   'observed': short(out, 4000), 'expected_calls': model.trace[:60],
                                   'observed_calls': rcd.calls()[:60]})
             return
     ctx.table('R nest depth', len(kinds))
     ctx.table('R tree nodes', tree_size(rec['tree']))
+    names_evidence(ctx, 'R', sp, syntax, model, list(kinds) + ['src:' + bs, 'sub-template defaults'])
     for f, n in model.probes.items():
         ctx.count('R:probes ' + f, n)
     ctx.count('R:sub-template invocations', model.subcalls)
@@ -1054,6 +1099,103 @@ def configs_b(tier):
     return out
 
 
+# ================================================================== part N: spelling of names
+def pick_spelling(rng):
+    """Seeded cases: the generator's lower-case names in 40 % of them, else any other style;
+    the old tag syntax in 30 %."""
+    sp = 0 if rng.random() < 0.4 else rng.randint(1, len(STYLES) - 1)
+    return sp, (rng.choice(SYNTAXES[1:]) if rng.random() < 0.3 else 'html')
+
+
+def configs_n(tier):
+    """Configurations of the parts A, H, B and R rendered again with the names spelled in
+    every other style (capitalised, upper case, mixed case with digits and underscores,
+    lower case with digits and underscores, long, all names case variants of one word) and /
+    or the tags written in the old <!--#tag--> syntax.  -> [(part, args)]"""
+    out = []
+    thorough = tier == 'thorough'
+    ns = len(STYLES)
+    i = 0
+    # -- A: every subset of the sources x every style x kind patterns
+    for mask in range(1, 128):
+        k = bin(mask).count('1')
+        rot = tuple(KINDS3[(j + mask) % 3] for j in range(k))
+        pats = [(KINDS3[0],) * k, (KINDS3[1],) * k, (KINDS3[2],) * k, rot,
+                (FALSY[mask % 5],) + rot[1:]]
+        for sp in range(ns):
+            for pi, kinds in enumerate(pats):
+                i += 1
+                if sp == 0:
+                    if pi != mask % 5 and not thorough:
+                        continue
+                    syntax = SYNTAXES[1 + i % 2]
+                else:
+                    if not thorough and (pi + sp + mask) % 5 >= 2:
+                        continue
+                    syntax = SYNTAXES[(i // 3) % 3]
+                cls = ['H', 'HTML', 'String'][i % 3] if len(set(kinds)) == 1 else 'H'
+                if cls == 'String' and sp == 0:
+                    cls = 'HTML'
+                out.append(('A', (mask, kinds, i & 1, i % 16, cls, 'names', sp,
+                                  'html' if cls == 'String' else syntax)))
+    # -- H: every 8th systematic history
+    c = 0
+    for j, hist in enumerate(configs_h(tier)):
+        if j % 8 == 3:
+            c += 1
+            sp = c % ns
+            out.append(('H', (dict(hist, sp=sp, syntax=SYNTAXES[1 + (c // ns) % 2 if sp == 0 else (c // ns) % 3]),)))
+    # -- B: depth 1: kind x value kind x style; depth 2: every pair, styles rotating
+    modes1 = [(1, 'boom'), (1, 'rsub'), (2, 'boom'), (2, 'rsub')]
+    for kinds in itertools.product(NEST_KINDS, repeat=1):
+        for vk in KINDS3:
+            for sp in range(ns):
+                i += 1
+                syntax = SYNTAXES[1 + (i // 2) % 2 if sp == 0 else (i // 2) % 3]
+                out.append(('B', (kinds, vk, BASE_SOURCES[i % 6], None, sp, syntax)))
+                for x, mode in enumerate(modes1):
+                    if thorough or (x + i) % 2 == 0:
+                        out.append(('B', (kinds, vk, BASE_SOURCES[(i + x + 1) % 6], mode, sp, syntax)))
+    p = 0
+    for kinds in itertools.product(NEST_KINDS, repeat=2):
+        p += 1
+        for sp in range(ns):
+            if not thorough and (sp - p) % ns not in (0, 3, 5):
+                continue
+            for a, vk in enumerate(KINDS3):
+                if not thorough and (p + sp) % 3 != a:
+                    continue
+                i += 1
+                syntax = SYNTAXES[1 + (i // 2) % 2 if sp == 0 else (i // 2) % 3]
+                out.append(('B', (kinds, vk, BASE_SOURCES[i % 6], None, sp, syntax)))
+                out.append(('B', (kinds, vk, BASE_SOURCES[(i + 2) % 6],
+                                  (1 + i % 3, ('boom', 'rsub')[(i // 3) % 2]), sp, syntax)))
+    if thorough:
+        for kinds in itertools.product(NEST_KINDS, repeat=3):
+            i += 1
+            sp = i % ns
+            syntax = SYNTAXES[1 + (i // ns) % 2 if sp == 0 else (i // ns) % 3]
+            out.append(('B', (kinds, KINDS3[i % 3], BASE_SOURCES[i % 6],
+                              None if i % 2 else (1 + i % 4, ('boom', 'rsub')[(i // 4) % 2]), sp, syntax)))
+    # -- R: depth 1: kind x style (thorough: x value kind); depth 2: every pair, style rotating
+    for d in (1, 2):
+        for p, kinds in enumerate(itertools.product(NEST_KINDS, repeat=d)):
+            for sp in range(ns):
+                if d == 2 and (sp != p % ns if not thorough else (sp + p) % 2):
+                    continue
+                for a, vk in enumerate(KINDS3):
+                    i += 1
+                    if not thorough and (p + sp) % 3 != a:
+                        continue
+                    driver, tree = REC_TD[i % 5]
+                    out.append(('R', (kinds, vk, BASE_SOURCES[i % 6],
+                                      {'tree': fit_tree(kinds, driver, TREES[tree]), 'driver': driver,
+                                       'route': REC_ROUTES[(i // 2) % 3], 'doom': (i // 5) % 2,
+                                       'renders': 1 + (i // 4) % 2, 'top': (i // 3) % 2, 'own': (i // 7) % 2,
+                                       'sp': sp, 'syntax': SYNTAXES[1 + (i // 2) % 2 if sp == 0 else (i // 2) % 3]})))
+    return out
+
+
 # ================================================================== driver hooks
 def anchors():
     from DocumentTemplate import DT_String, DT_With, DT_Let, DT_In, DT_Try, DT_Util
@@ -1090,13 +1232,14 @@ def run(ctx, spec):
             kinds = tuple(rng.choice(allk) for _ in range(k))
             ctx.count('A:seeded mixed assignments')
             run_a(ctx, mask, kinds, rng.randint(0, 1), rng.randint(0, 15),
-                  rng.choice(['H', 'H', 'HTML']), 'seeded')
+                  rng.choice(['H', 'H', 'HTML']), 'seeded', *pick_spelling(rng))
         for i, hist in enumerate(configs_h(ctx.tier)):
             if i % ctx.nshards == ctx.shard:
                 run_h(ctx, hist)
         for _ in range((480 if ctx.tier == 'quick' else 16000) // ctx.nshards):
             ctx.count('H:seeded histories')
-            run_h(ctx, random_history(rng))
+            sp, syntax = pick_spelling(rng)
+            run_h(ctx, dict(random_history(rng), sp=sp, syntax=syntax))
         for i, cfg in enumerate(configs_b(ctx.tier)):
             if i % ctx.nshards == ctx.shard:
                 run_b(ctx, *cfg)
@@ -1105,7 +1248,14 @@ def run(ctx, spec):
                 run_r(ctx, *cfg)
         for _ in range((240 if ctx.tier == 'quick' else 6400) // ctx.nshards):
             ctx.count('R:seeded nests over seeded trees')
-            run_r(ctx, *random_rec(rng, ctx.tier))
+            kinds, vk, bs, rec = random_rec(rng, ctx.tier)
+            sp, syntax = pick_spelling(rng)
+            run_r(ctx, kinds, vk, bs, dict(rec, sp=sp, syntax=syntax))
+        runners = {'A': run_a, 'H': run_h, 'B': run_b, 'R': run_r}
+        for i, (part, args) in enumerate(configs_n(ctx.tier)):
+            if i % ctx.nshards == ctx.shard:
+                ctx.count('N:configurations rendered again under another spelling / tag syntax')
+                runners[part](ctx, *args)
     finally:
         reach.stop()
         reach.report(ctx)
@@ -1167,6 +1317,26 @@ def finish(agg):
         for k in keys:
             if not t.get(name, {}).get(k):
                 inc.append('%s %s never rendered with a re-entrant activation' % (name[2:], k))
+    # part N: the deciding comparisons are the probes of the parts rendered with the names in
+    # another spelling / the tags in another syntax: every binding construct and every source
+    # must have been compared under every spelling and every syntax
+    if not c.get('N:configurations rendered again under another spelling / tag syntax'):
+        inc.append('monitor never evaluated: N:configurations rendered again under another spelling / tag syntax')
+    constructs = list(NEST_KINDS) + ['src:' + s for s in SOURCES] + ['src:' + s for s in BASE_SOURCES] \
+        + ['sub-template defaults', 'let (two bindings, the second reading the first)', 'if / elif / unless cache']
+    for dim, table, compared, values in (
+            ('spelling', 'N construct x spelling', 'N probes compared under spelling', STYLES),
+            ('tag syntax', 'N construct x tag syntax', 'N probes compared under tag syntax', SYNTAXES)):
+        for v in values:
+            if not t.get(compared, {}).get(v):
+                inc.append('no probe was compared under %s %s' % (dim, v))
+            for k in constructs:
+                if not t.get(table, {}).get('%s/%s' % (k, v)):
+                    inc.append('%s never compared under %s %s' % (k, dim, v))
+    for part in 'AHBR':
+        for v in STYLES:
+            if not t.get('N part x spelling', {}).get('%s/%s' % (part, v)):
+                inc.append('part %s never rendered under spelling %s' % (part, v))
     wk = t.get('A winner source x kind', {})
     for s in SOURCES:
         for k in KINDS3 + FALSY:
